@@ -1090,6 +1090,212 @@ def judge_eig_o(inp, obs, lr):
     return None
 
 
+# ------------------------------------------------------------------------------------------------
+# generic defences G1-G4 on the projective API: histories of unrelated calls, each judged against an independent
+# reference written here; inputs snapshotted; returned arrays mutated in place and the query repeated; objects with a
+# history compared with fresh objects built from their current data; dtypes in every order
+# ------------------------------------------------------------------------------------------------
+ISO_KINDS = ["chart", "chart", "translation", "translation", "linmap", "hyp", "intersect", "eig", "apply"]
+ISO_DTYPES = ["float64", "float64", "complex128", "int64", "float32"]
+
+
+def gen_iso16(rng, n):
+    for _ in range(n):
+        steps = []
+        dim = rng.choice([1, 2, 2, 3])          # one dimension per history: caches keyed on n are hit again and again
+        for _ in range(rng.randint(4, 8)):
+            kind = rng.choice(ISO_KINDS)
+            dt = rng.choice(ISO_DTYPES)
+            if kind in ("hyp", "intersect", "eig") and dt in ("int64", "float32"):
+                dt = "float64"
+            if kind == "hyp":
+                dt = "float64"
+            steps.append({"kind": kind, "dtype": dt, "c": rng.randrange(dim + 1), "seed": rng.randrange(10 ** 9),
+                          "cv": rng.random() < 0.5, "mutate": rng.choice(["zero", "add"])})
+        yield {"dim": dim, "steps": steps}
+
+
+def _rnd(r, shape, dt):
+    if dt == "int64":
+        a = r.integers(-4, 5, size=shape).astype(np.int64)
+        return a
+    a = r.normal(size=shape)
+    if dt == "complex128":
+        a = a + 1j * r.normal(size=shape)
+    return a.astype(dt)
+
+
+def _mut(x, how):
+    try:
+        if how == "zero":
+            x[...] = 0
+        else:
+            x += 1
+    except (ValueError, TypeError):
+        pass
+
+
+def _ref_affine(x, c):
+    x = np.asarray(x)
+    return np.delete(x / x[..., c:c + 1], c, axis=-1)
+
+
+def run_iso16(inp):
+    dim = inp["dim"]
+    bad = []
+    def check(ok, idx, st, what):
+        if not ok and len(bad) < 3:
+            bad.append([idx, st["kind"], st["dtype"], what])
+    for idx, st in enumerate(inp["steps"]):
+        r = np.random.default_rng(st["seed"])
+        c, dt, kind = st["c"], st["dtype"], st["kind"]
+        tol = 1e-4 if dt == "float32" else 1e-9
+        wide = lambda a: np.asarray(a).astype(complex if np.iscomplexobj(a) else float)
+        if kind == "chart":
+            a = _rnd(r, (3, dim), dt)
+            snap = a.copy()
+            pt = P.Point(a, chart_index=c)
+            check(np.array_equal(a, snap), idx, st, "Point(a, chart_index) changed its argument")
+            ref_proj = np.insert(wide(snap), c, 1, axis=-1)
+            out = P.projective_coords(a, chart_index=c)
+            check(np.array_equal(a, snap) and err(wide(out), ref_proj) <= tol, idx, st, "projective_coords value / argument")
+            _mut(out, st["mutate"])
+            check(err(wide(P.projective_coords(a, chart_index=c)), ref_proj) <= tol, idx, st, "projective_coords after mutating its result")
+            q1 = pt.affine_coords(chart_index=c)
+            check(err(wide(q1), wide(snap)) <= tol, idx, st, "Point.affine_coords")
+            _mut(q1, st["mutate"])
+            check(err(wide(pt.affine_coords(chart_index=c)), wide(snap)) <= tol, idx, st, "Point.affine_coords after mutating its result")
+            x = np.asarray(pt.proj_data) * 3
+            xs = x.copy()
+            q2 = P.affine_coords(x, chart_index=c)
+            check(np.array_equal(x, xs) and err(wide(q2), wide(snap)) <= tol, idx, st, "affine_coords value / argument")
+            # packagings of the same data: nested list, nested tuple, a non-contiguous view, a one-shot iterator of rows
+            big = np.zeros((2 * x.shape[0], x.shape[1] + 1), dtype=x.dtype)
+            big[::2, 1:] = x
+            for pk, val in (("list", x.tolist()), ("tuple", tuple(map(tuple, x.tolist()))), ("view", big[::2, 1:])):
+                check(err(wide(P.affine_coords(val, chart_index=c)), wide(snap)) <= tol, idx, st, "affine_coords of a " + pk)
+            abig = np.zeros((3, 2 * dim), dtype=a.dtype)
+            abig[:, ::2] = snap
+            for pk, val in (("list", snap.tolist()), ("tuple", tuple(map(tuple, snap.tolist()))), ("view", abig[:, ::2])):
+                check(err(wide(P.projective_coords(val, chart_index=c)), ref_proj) <= tol, idx, st, "projective_coords of a " + pk)
+            _mut(q2, st["mutate"])
+            check(err(wide(P.affine_coords(x, chart_index=c)), wide(snap)) <= tol, idx, st, "affine_coords after mutating its result")
+        elif kind == "translation":
+            t = _rnd(r, (dim,), dt)
+            snap = t.copy()
+            T = P.affine_translation(t, chart_index=c)
+            ref = np.eye(dim + 1, dtype=complex)
+            ref[c] = np.insert(wide(snap).astype(complex), c, 1)
+            M = np.asarray(T.proj_data)
+            check(np.array_equal(t, snap) and M.dtype != object and err(M.astype(complex), ref) <= tol, idx, st, "affine_translation matrix / argument")
+            _mut(M, st["mutate"])               # in-place change of one object's data must not leak into the next object
+            t2 = _rnd(r, (dim,), dt)
+            ref2 = np.eye(dim + 1, dtype=complex)
+            ref2[c] = np.insert(wide(t2).astype(complex), c, 1)
+            check(err(np.asarray(P.affine_translation(t2, chart_index=c).proj_data).astype(complex), ref2) <= tol, idx, st,
+                  "affine_translation after mutating the previous object's matrix")
+        elif kind == "linmap":
+            L = _rnd(r, (dim, dim), dt)
+            snap = L.copy()
+            T = P.affine_linear_map(L, chart_index=c, column_vectors=st["cv"])
+            blk = np.eye(dim + 1, dtype=complex)
+            keep = [i for i in range(dim + 1) if i != c]
+            blk[np.ix_(keep, keep)] = wide(snap)
+            ref = blk.T if st["cv"] else blk
+            M = np.asarray(T.proj_data)
+            check(np.array_equal(L, snap) and err(M.astype(complex), ref) <= tol, idx, st, "affine_linear_map matrix / argument")
+            _mut(M, st["mutate"])
+            check(np.array_equal(L, snap), idx, st, "affine_linear_map argument aliased by the object")
+            check(err(np.asarray(P.affine_linear_map(L, chart_index=c, column_vectors=st["cv"]).proj_data).astype(complex), ref) <= tol,
+                  idx, st, "affine_linear_map after mutating the previous object's matrix")
+        elif kind == "hyp":
+            nv = r.normal(size=dim + 1) * 10.0 ** r.integers(-3, 4)
+            if r.random() < 0.3:
+                nv[r.integers(0, dim + 1)] = 0.0
+                if not np.any(nv):
+                    nv[0] = 1.0
+            snap = nv.copy()
+            for rep in range(2):
+                M = np.asarray(P.hyperplane_coordinate_transform(nv).proj_data)
+                col = M[:, 0] * np.linalg.norm(snap)
+                ok = (np.max(np.abs(M.T @ M - np.eye(dim + 1))) <= 1e-9 and
+                      (close(col, snap, 1e-9) or close(-col, snap, 1e-9)) and np.array_equal(nv, snap))
+                check(ok, idx, st, "hyperplane_coordinate_transform" + (" after mutating its result" if rep else ""))
+                _mut(M, st["mutate"])
+        elif kind == "intersect":
+            amb = dim + 2
+            k1, k2 = amb - 1, 2
+            A, B = _rnd(r, (k1, amb), dt), _rnd(r, (k2, amb), dt)
+            sa, sb = A.copy(), B.copy()
+            SA = P.Subspace(A)
+            for rep in range(2):
+                R = SA.intersect(B if rep == 0 else P.Subspace(B))
+                res = np.asarray(R.proj_data)
+                ok = (res.shape == (k1 + k2 - amb, amb) and np.array_equal(A, sa) and np.array_equal(B, sb) and
+                      np.linalg.matrix_rank(np.vstack([sa, res]), tol=1e-8) == k1 and
+                      np.linalg.matrix_rank(np.vstack([sb, res]), tol=1e-8) == k2 and np.linalg.matrix_rank(res, tol=1e-8) == 1)
+                check(ok, idx, st, "Subspace.intersect" + (" after mutating its result" if rep else ""))
+                _mut(res, st["mutate"])
+        elif kind == "eig":
+            m = dim + 1
+            g = _rnd(r, (m, m), dt)
+            while np.linalg.cond(g) > 30:
+                g = _rnd(r, (m, m), dt)
+            lam = np.arange(1, m + 1) * 0.5 + 0.25
+            Pm = (np.linalg.inv(g) @ np.diag(lam) @ g)
+            snap = Pm.copy()
+            T = P.Transformation(Pm)
+            target = float(lam[int(r.integers(0, m))])
+            def resid(Tobj):
+                v = np.asarray(Tobj.eigenvector(target).proj_data)
+                w = v @ snap
+                return float(np.max(np.abs(w - target * v)) / (np.max(np.abs(v)) * (1 + np.max(np.abs(snap))))), v
+            e1, v1 = resid(T)
+            _mut(v1, st["mutate"])
+            Ti = T.inv()
+            Dg = T.diagonalize()
+            img = T @ P.Point(np.ones(m))
+            _mut(np.asarray(Ti.proj_data), st["mutate"])
+            _mut(np.asarray(Dg.proj_data), st["mutate"])
+            e2, _ = resid(T)                                   # the object WITH a history
+            e3, _ = resid(P.Transformation(snap.copy()))       # a fresh object from the same data
+            check(max(e1, e2, e3) <= 1e-7 and np.array_equal(np.asarray(T.proj_data), snap), idx, st,
+                  "eigenvector on an object with a history (inv, diagonalize, apply; results mutated) vs fresh object")
+        else:  # apply
+            a = _rnd(r, (2, dim), dt)
+            L = _rnd(r, (dim, dim), "complex128" if dt == "complex128" else "float64")
+            pt = P.Point(a.copy(), chart_index=c)
+            before = np.asarray(pt.proj_data).copy()
+            q0 = pt.affine_coords(chart_index=c)
+            T = P.affine_translation(_rnd(r, (dim,), "float64"), chart_index=c)
+            Tm = np.asarray(T.proj_data).copy()
+            img = T @ pt
+            ref_img = before @ Tm
+            check(np.array_equal(np.asarray(pt.proj_data), before) and np.array_equal(np.asarray(T.proj_data), Tm), idx, st,
+                  "apply changed the point or the transformation")
+            check(err(wide(np.asarray(img.proj_data)), wide(ref_img)) <= tol, idx, st, "image of a point with a history")
+            fresh = P.Point(np.asarray(img.proj_data).copy())
+            ok = True
+            try:
+                qa, qb = img.affine_coords(chart_index=c), fresh.affine_coords(chart_index=c)
+                ok = err(wide(qa), wide(qb)) <= tol and err(wide(qa), _ref_affine(wide(ref_img), c)) <= 10 * tol
+            except GeometryError:
+                ok = bool(np.any(ref_img[..., c] == 0))
+            check(ok, idx, st, "query on the image vs fresh object / reference")
+            _mut(np.asarray(img.proj_data), st["mutate"])
+            check(np.array_equal(np.asarray(pt.proj_data), before), idx, st, "image shares memory with the original point")
+    return {"bad": bad}
+
+
+def judge_iso16(inp, obs, lr):
+    if "exc" in obs:
+        return {"expected": "every call of the history succeeds", "observed": obs, "tags": {"history": True, "exc": obs["exc"]}}
+    if obs["bad"]:
+        return {"expected": "each call equals its independent reference, inputs untouched, results not aliased, objects with a history "
+                            "behave like fresh ones", "observed": obs["bad"], "tags": {"history": True, "site": obs["bad"][0][3]}}
+    return None
+
+
 CLAUSES = [
     Clause("chart_corr", "corr", gen_chart, run_chart, judge_chart, lean=lean_chart,
            site="projective.affine_coords/projective_coords/Point.in_affine_chart", budget={"quick": 160, "thorough": 4000},
@@ -1112,6 +1318,12 @@ CLAUSES = [
     Clause("eig_corr", "corr", gen_eig, run_eig, judge_eig, lean=lean_eig,
            site="projective.Transformation.eigenvector/diagonalize", budget={"quick": 80, "thorough": 2000},
            what="observed eig output -> model selection (first masked eigenvalue, composite first-match / zero fill, GeometryError) vs returned point; diagonalize data and M.inv()@T@M"),
+    Clause("isolation_oracle", "oracle", gen_iso16, run_iso16, judge_iso16, site="projective.* (histories)",
+           budget={"quick": 150, "thorough": 3000},
+           what="generic defences G1-G4: histories of 4-8 unrelated calls in one dimension (charts, translations, linear maps, hyperplane "
+                "transforms, intersections, eigenvectors, apply) with dtypes float64/complex128/int64/float32 in random order; each result "
+                "against an independent reference; inputs snapshotted; returned arrays and object data mutated in place and the call "
+                "repeated; objects with a history (inv, diagonalize, apply) vs fresh objects"),
     Clause("roundtrip_oracle", "oracle", gen_rt, run_rt, judge_rt, site="projective.Point.affine_coords",
            budget={"quick": 300, "thorough": 8000},
            what="float/complex: Point(a, chart_index=c) has 1 in slot c; after any non-zero rescaling (negative, purely imaginary, 1e±30) "
